@@ -64,6 +64,11 @@ def catalogue_full():
         cat.append(G.shape_indirect_register('sp', (5, 3), pos))
         cat.append(G.shape_indirect_register('sp', (5, 3), pos, offset=8))
         cat.append(G.shape_indirect_register('x', (2, 2), pos, offset=12, align=False, endian='little'))
+        # multi-byte offsets / indices in each byte-order configuration: inherited from the definition, stated big, stated little
+        for e in (None, 'big', 'little'):
+            cat.append(G.shape_indirect_register('sp', (5, 3), pos, offset=16, endian=e))
+            cat.append(G.shape_indexed('x', (3, 2), 16, pos, endian=e))
+            cat.append(G.shape_indexed('sp', (1, 3), 24, pos, indirect=True, endian=e))
         cat.append(G.shape_indexed('x', (3, 2), 8, pos))
         cat.append(G.shape_indexed('x', (3, 2), 4, pos, align=False, idx_code=(1, 2)))
         cat.append(G.shape_indexed('x', (3, 2), 8, pos, reg_index=('b', 2, 3)))
